@@ -157,7 +157,7 @@ def check_source(ctx, src, tag, files=False):
         with tempfile.TemporaryDirectory() as d:
             p1 = os.path.join(d, 'a.p8')
             with open(p1, 'wb') as fh:
-                fh.write(rc.write_p8(regions, src, version=ambient.VERSION[0]))
+                fh.write(rc.write_p8_variant(ctx.rng, regions, src, version=ambient.VERSION[0]))
             try:
                 g = p8file.from_file(p1)
             except Exception as e:
@@ -221,7 +221,7 @@ def check_listtokens(ctx, sources, workdir):
     for k, src in enumerate(sources):
         p = os.path.join(workdir, 'lt%d.p8' % k)
         with open(p, 'wb') as fh:
-            fh.write(rc.write_p8(regions, src, version=ambient.VERSION[0]))
+            fh.write(rc.write_p8_variant(ctx.rng, regions, src, version=ambient.VERSION[0]))
         paths.append(p)
     buf = _io.StringIO()
     old_stream, old_verb = util._write_stream, util._verbosity
